@@ -139,6 +139,7 @@ struct Options {
 	bool verbose = false;
 	unsigned char fill = 0x00;
 	bool devImmediate = false;  // callback deviations also on immediate/reset ops
+	bool common = false;		// restrict the driven alphabet to the feature-independent subset (C15)
 	bool immReduced = false;	// ... but only the reduced menus, and only on change/restart/resume ops
 	std::string mode;			// property-specific sub-mode
 };
@@ -198,7 +199,7 @@ struct Engine {
 	// anonymous heads answer select() with INVALID_PRONG and utility 0: select / randomize through headless regions are
 	// outside the documented preconditions, so programs with headless composite-style regions do not use those kinds
 	static bool hasHeadlessCompo() { for (int s = 0; s < N; ++s) if (isCompo(s) && D(s).headless) return true; return false; }
-	static bool kindAllowed(int k) { if (k == T_UTILIZE || k == T_RANDOMIZE) { if (!utilityOn()) return false; } if (hasHeadlessCompo() && (k == T_SELECT || k == T_RANDOMIZE)) return false; return true; }
+	static bool kindAllowed(int k) { if (k == T_UTILIZE || k == T_RANDOMIZE) { if (!utilityOn() || G().opt.common) return false; } if (hasHeadlessCompo() && (k == T_SELECT || k == T_RANDOMIZE)) return false; return true; }
 
 	// ---- menus ----------------------------------------------------------------------------------
 	static void buildMenus() {
@@ -825,6 +826,20 @@ struct Engine {
 };
 
 }  // namespace vt
+
+// ---- sanitizer hooks: reports become recorded outcomes instead of killing the explorer -----------------------------
+namespace vt { inline long& sanErrors() { static long n = 0; return n; } }
+#if defined(__SANITIZE_ADDRESS__)
+#define VT_ASAN 1
+#elif defined(__has_feature)
+#if __has_feature(address_sanitizer)
+#define VT_ASAN 1
+#endif
+#endif
+#ifdef VT_ASAN
+extern "C" void __asan_on_error() { ++vt::sanErrors(); }
+extern "C" void __ubsan_on_report() { ++vt::sanErrors(); }
+#endif
 
 #ifdef HFSM2_VERIF
 extern "C" void hfsm2_verif_break(const char* file, int line) noexcept {
